@@ -107,7 +107,13 @@ def send_script(E, rt, m, ret_of=None):
 
 
 def sends_pred(E, rt, m):
-    return [{'to': ev(m, s.to.key), 'method': ev(m, zv(s.method)), 'value': str(ev(m, s.value))} for s in rt.sends]
+    out = []
+    for s in rt.sends:
+        d = {'method': ev(m, zv(s.method)), 'value': str(ev(m, s.value))}
+        if ev(m, s.to.proto) == 0:
+            d['to'] = ev(m, s.to.key)        # non-ID targets are printed as address strings by the native side: not compared
+        out.append(d)
+    return out
 
 
 def result_pred(E, res, m):
